@@ -127,4 +127,6 @@ def harness_config(inst):
         "kind": {str(a): k for a, k in inst["acts"].items()},
         "cb_reads": inst["cb_reads"],
         "fine_reg": bool(inst.get("fine_reg")),
+        "slow_reduce_us": int(inst.get("slow_reduce_us", 0)),
+        "slow_deliver_us": int(inst.get("slow_deliver_us", 0)),
     }
